@@ -286,6 +286,7 @@ class AlterOracle:
             "ADD nd": [("KW", "ADD"), (nd, "name"), (C["typ2"], "type")],
             "RENAME b TO rb": [("KW", "RENAME"), ("KW", "COLUMN"), (C["b"], "col1"), (TO, None), (rb, "to")],
             "DROP b": [("KW", "DROP"), ("KW", "COLUMN"), (C["b"], "col1")],
+            "DROP nc": [("KW", "DROP"), ("KW", "COLUMN"), (nc, "col1")],
             "FK (rb)": [("KW", "ADD"), ("KW", "FOREIGN"), ("KW", "KEY"), P["("], (rb, "col1"), P[")"], ("KW", "REFERENCES"), (C["o"], "ref_table"),
                         P["("], (C["x"], "ref_col1"), P[")"]],
             "FK (nc)": [("KW", "ADD"), ("KW", "FOREIGN"), ("KW", "KEY"), P["("], (nc, "col1"), P[")"], ("KW", "REFERENCES"), (C["o"], "ref_table"),
@@ -307,6 +308,11 @@ class AlterOracle:
             (["FK (a)", "RENAME b TO rb", "FK (rb)"], [A, rb.word, Cc]),
             (["ADD nc", "DROP b", "UNIQUE (nc)"], [A, Cc, nc.word]),
             (["FK (a)", "DROP b", "ADD nc", "ADD nd"], [A, Cc, nc.word, nd.word]),
+            # a column added and dropped again stays dropped, whatever ALTER follows (nothing re-creates it from the alter section)
+            (["ADD nc", "DROP nc", "ADD nd"], [A, B, Cc, nd.word]),
+            (["ADD nc", "DROP nc", "FK (a)"], [A, B, Cc]),
+            (["ADD nc", "ADD nd", "DROP nc", "RENAME b TO rb", "FK (rb)"], [A, rb.word, Cc, nd.word]),
+            (["DROP b", "ADD nc", "DROP nc", "ADD nd"], [A, Cc, nd.word]),
         ]
         cache = {}
 
